@@ -12,7 +12,8 @@ RULE = (
     "messages: Hypothesis markup trees (registered tags, inline fg/bg/options specs, closed by name or by the short "
     "closing tag, unknown tags, escaped registered tags and angle brackets as text, newlines, non-ASCII), each formatted by the ANSI and the "
     "plain formatter and written through decorated / undecorated outputs; styles: all 18 x 18 x 2^7 = 41472 styles "
-    "supplied in the style set, added later, and passed for a single call (exhaustive in both tiers); newline: every "
+    "supplied in the style set, added later, and passed for a single call (exhaustive in both tiers); style-history: "
+    "one Style object mutated by every sequence of 1-3 setter calls and used the three ways after every call; newline: every "
     "'*line*' method found by reflection on IO / Output / SectionOutput x ANSI/plain x stream; indentation: Hypothesis "
     "programs of nested indent / increment_indent scopes (depth <= 4) at IO and single-output level with write_line "
     "bodies (multi-line texts, empty lines) and exceptional exits. Non-trivial: message with nesting depth >= 2 or "
@@ -153,6 +154,60 @@ def check_style(ctx, case, by_construction=False):
         codes = set(int(c) for c in m.group(1).split(";") if c) if m else None
         if not ok or codes != want:
             ctx.fail("style", "C11.sgr", case, sorted(want), {way: got}, sig=way)
+
+
+SETTER_OPS = [("fg", "red"), ("fg", "blue"), ("bg", "white"), ("bg", None), ("bold", True), ("bold", False),
+              ("underlined", True), ("inverse", True), ("italic", True), ("hidden", True), ("fg", None)]
+
+
+def check_style_history(ctx, case, by_construction=False):
+    """ONE Style object: setter calls interleaved with uses (single call, add_style, style set); every use renders
+    the style's CURRENT colours and attributes."""
+    from clikit.api.formatter import Style, StyleSet
+    from clikit.formatter import AnsiFormatter
+
+    ctx.case("style-history", case, True, distinct_by_construction=by_construction)
+    style = Style("t")
+    state = {"fg": None, "bg": None}
+    attrs = set()
+    codes_of = dict(markup.STYLE_METHODS)
+    formatter = AnsiFormatter(forced=True)
+    tagged = LT + "t" + GT + "x" + LT + "/t" + GT
+    for i, (name, value) in enumerate(case["setters"]):
+        if name in ("fg", "bg"):
+            getattr(style, name)(value)
+            state[name] = value
+        else:
+            getattr(style, name)(value)
+            (attrs.add if value else attrs.discard)(name)
+        want = set()
+        if state["fg"]:
+            want.add(markup.FG[state["fg"]])
+        if state["bg"]:
+            want.add(markup.FG[state["bg"]] + 10)
+        want |= set(codes_of[a] for a in attrs)
+        uses = {}
+        try:
+            uses["single-call"] = formatter.format("x", style)
+            formatter.add_style(style)
+            uses["add_style"] = formatter.format(tagged)
+            uses["style-set"] = AnsiFormatter(StyleSet([style]), forced=True).format(tagged)
+        except Exception as e:
+            ctx.fail("style-history", "C11.sgr", case, sorted(want), {"after_setter": i}, exc=e)
+            return
+        for way, got in uses.items():
+            m = markup.SGR_RE.match(got)
+            codes = set(int(c) for c in m.group(1).split(";") if c) if m else set()
+            ok = (got == "x") if not want else (bool(m) and got == m.group(0) + "x\x1b[0m" and codes == want)
+            if not ok:
+                ctx.fail("style-history", "C11.sgr", case, sorted(want), {"after_setter": i, way: got}, sig="history-" + way)
+                return
+
+
+def shard_style_history(ctx, first):
+    for n in (0, 1, 2):
+        for rest in itertools.product(SETTER_OPS, repeat=n):
+            check_style_history(ctx, {"setters": [list(SETTER_OPS[first])] + [list(r) for r in rest]}, True)
 
 
 def shard_styles(ctx, fg_index):
@@ -301,7 +356,7 @@ def program_st():
     return st.fixed_dictionaries({"program": st.lists(item, min_size=1, max_size=5)})
 
 
-PARTS = {"message": check_message, "style": check_style, "newline": check_newline, "indent": check_indent}
+PARTS = {"style-history": check_style_history, "message": check_message, "style": check_style, "newline": check_newline, "indent": check_indent}
 
 
 HYP = {"message": (lambda ctx: markup.nodes_st().map(lambda n: {"nodes": n}), check_message),
@@ -314,6 +369,8 @@ def run(ctx):
     ctx.hyp_sharded("message", 8000 if quick else 100000, salt=1)
     ctx.parallel("shard_styles", list(range(len(COLORS))))
     ctx.exhaustive("style", True, "18 foreground x 18 background x 2^7 attribute sets, three ways of supplying the style")
+    ctx.parallel("shard_style_history", list(range(len(SETTER_OPS))))
+    ctx.exhaustive("style-history", True, "all sequences of 1-3 setter calls (11 setters) on one Style object, used three ways after every call")
     lm = line_methods()
     ctx.note("line-writing methods by reflection: %r" % (lm,))
     for kind, cls in c10.KINDS.items():
